@@ -50,6 +50,29 @@ pub const SCALARS: &[Sc] = &[
     Sc { c: "_Bool", bits: 8, signed: false, k: SK::Bool, rs: "bool" },
     Sc { c: "float", bits: 32, signed: true, k: SK::F32, rs: "f32" },
     Sc { c: "double", bits: 64, signed: true, k: SK::F64, rs: "f64" },
+    // <stdint.h> / <stddef.h> names whose width is the C library's choice, not the name's (x86_64 glibc: the 16- and
+    // 32-bit `fast` types are `long`): a binding must follow the typedef, never the number in the name
+    Sc { c: "int_fast8_t", bits: 8, signed: true, k: SK::Int, rs: "i8" },
+    Sc { c: "uint_fast8_t", bits: 8, signed: false, k: SK::Int, rs: "u8" },
+    Sc { c: "int_fast16_t", bits: 64, signed: true, k: SK::Int, rs: "i64" },
+    Sc { c: "uint_fast16_t", bits: 64, signed: false, k: SK::Int, rs: "u64" },
+    Sc { c: "int_fast32_t", bits: 64, signed: true, k: SK::Int, rs: "i64" },
+    Sc { c: "uint_fast32_t", bits: 64, signed: false, k: SK::Int, rs: "u64" },
+    Sc { c: "int_fast64_t", bits: 64, signed: true, k: SK::Int, rs: "i64" },
+    Sc { c: "uint_fast64_t", bits: 64, signed: false, k: SK::Int, rs: "u64" },
+    Sc { c: "int_least8_t", bits: 8, signed: true, k: SK::Int, rs: "i8" },
+    Sc { c: "uint_least8_t", bits: 8, signed: false, k: SK::Int, rs: "u8" },
+    Sc { c: "int_least16_t", bits: 16, signed: true, k: SK::Int, rs: "i16" },
+    Sc { c: "uint_least16_t", bits: 16, signed: false, k: SK::Int, rs: "u16" },
+    Sc { c: "int_least32_t", bits: 32, signed: true, k: SK::Int, rs: "i32" },
+    Sc { c: "uint_least32_t", bits: 32, signed: false, k: SK::Int, rs: "u32" },
+    Sc { c: "int_least64_t", bits: 64, signed: true, k: SK::Int, rs: "i64" },
+    Sc { c: "uint_least64_t", bits: 64, signed: false, k: SK::Int, rs: "u64" },
+    Sc { c: "intptr_t", bits: 64, signed: true, k: SK::Int, rs: "isize" },
+    Sc { c: "uintptr_t", bits: 64, signed: false, k: SK::Int, rs: "usize" },
+    Sc { c: "ptrdiff_t", bits: 64, signed: true, k: SK::Int, rs: "isize" },
+    Sc { c: "intmax_t", bits: 64, signed: true, k: SK::Int, rs: "i64" },
+    Sc { c: "uintmax_t", bits: 64, signed: false, k: SK::Int, rs: "u64" },
 ];
 pub const SC_INT: usize = 5;
 pub const SC_DOUBLE: usize = 25;
